@@ -46,7 +46,7 @@ def gen_cases(rng, n_per_kind, n_perturb):
     cases = []
     for kind in KINDS:
         for _ in range(n_per_kind):
-            c = {'ex': kind, 'seed': rng.randrange(10 ** 9), 'perturb': n_perturb, 'length': rng.choice([3, 4])}
+            c = {'ex': kind, 'seed': rng.randrange(10 ** 9), 'perturb': n_perturb, 'length': rng.choice([3, 4]) if kind != 'dfa2regexp' else rng.choice([3, 4, 6, 6])}
             sigma = rng.choice(['ab', 'a', 'abc']) if kind in ('words_dfa', 'complement', 'minimal', 'hopcroft') else rng.choice(['ab', 'a'])
             if kind in ('words_dfa', 'complement', 'reverse', 'minimal', 'hopcroft', 'dfa2regexp'):
                 c['D'] = G.random_dfa(rng, rng.randint(1, 4), sigma, names=rng.choice([None, ['A', 'B', 'C', 'D']]))
@@ -318,12 +318,22 @@ def observe(c):
         t = safe(mk.apply_command, 'cfg_%s_derivation' % other, [f, info['word']])
         if ok(t):
             answers.append({'text': t[1], 'own': False})
+    if ex == 'dfa2regexp' and c['perturb'] and c['length'] >= 6:
+        from gambatools.dfa_algorithms import dfa_accepts_word
+        Dm = conv.dfa_obj(c['D'])
+        for w in [s_ * k_ for s_ in c['D']['Sigma'] for k_ in (5, 6)]:
+            if not dfa_accepts_word(Dm, w):
+                answers.append({'text': '(%s)+%s' % (own, w), 'own': False})    # one extra word of length 5 / 6
+                break
     if ex == 'cyk' and c['perturb']:
         # a table that is correct but covers only a prefix of the word (rows missing)
         for k in range(1, len(info['word'])):
             t = safe(mk.apply_command, 'cfg_cyk_matrix', [f, info['word'][:k]])
             if ok(t):
                 answers.append({'text': t[1], 'own': False})
+    # the library's own answer once more at the end: a checker must not remember the rejected answers it has seen in between
+    if len(answers) > 1:
+        answers.append({'text': own, 'own': True})
     out = []
     for a in answers:
         res = check(a['text'])
